@@ -15,4 +15,4 @@ def gen_config(rng, tier):
         if rng.random() < 0.7:
             ops[k] = w * rng.choice([0.5, 1.0, 2.0])
     return {"n": n, "steps": rng.randrange(5, 40), "ops": ops, "faults": [], "flags": ["c10"],
-            "max_gates": rng.choice([4, 8, 12])}
+            "max_gates": rng.choice([4, 8, 12]), "backend": "torch" if rng.random() < 0.15 else "numpy"}
